@@ -25,6 +25,14 @@ Theorem C02_exact : forall fs r,
 Proof. exact framing_exact. Qed.
 Print Assumptions C02_exact.
 
+(* hence a byte stream has exactly one division into well-formed frames and an unfinished remainder: the boundaries
+   are a function of the bytes alone *)
+Theorem C02_unambiguous : forall fs gs r s,
+  nonneg (concat fs ++ r) -> Forall wf_frame fs -> unfinished r -> Forall wf_frame gs -> unfinished s ->
+  concat fs ++ r = concat gs ++ s -> fs = gs /\ r = s.
+Proof. exact framing_unambiguous. Qed.
+Print Assumptions C02_unambiguous.
+
 (* a stream that ends after n bytes yields exactly the frames whose final byte was delivered: they are a prefix of
    the frames of the whole stream, and the next frame of the whole stream ends beyond byte n *)
 Theorem C02_truncation : forall bs n,
